@@ -5,6 +5,8 @@ import (
 	"astverif/extrarules"
 	"astverif/layout"
 	"astverif/ownership"
+	"astverif/report"
+	"strings"
 )
 
 func init() { register("C08", "other", c08) }
@@ -39,6 +41,30 @@ func c08(c *Ctx) {
 	// the end of the stream looks the same whether it is met while reading packets or during packet size detection: the
 	// sentinel is never wrapped on the way up (E4c)
 	errflow.E4c(c.P, r, "ErrNoMorePackets")
+	// "auto-detection on a bufio reader neither loses nor alters any packet": an error of the reader calls inside the framing
+	// functions (Peek on a too small bufio buffer, Seek, ReadFull) is returned, never turned into a fall-through to the path
+	// for plain readers, which skips two packets (E2 of C18, the I/O call sites only)
+	{
+		tmp := report.New("tmp", c.Tier, "other")
+		errflow.E2E3(c.P, tmp, errflow.ComputeIOSets(c.P), errflow.E2Options{Exceptions: e2Exceptions, OnlyIO: true})
+		n := 0
+		for _, o := range tmp.Obls {
+			if o.Rule != "E2" || !(strings.HasPrefix(o.Pos, "packet_buffer.go:")) {
+				continue
+			}
+			key := o.Key[len(o.Rule)+1:]
+			switch o.Status {
+			case report.Discharged:
+				r.OK(o.Rule, key, o.Pos, o.Detail)
+			case report.Violated:
+				r.Bad(o.Rule, key, o.Pos, o.Detail)
+			default:
+				r.Unknown(o.Rule, key, o.Pos, o.Detail)
+			}
+			n++
+		}
+		r.Floor("E2", "error-returning I/O call sites in packet_buffer.go", n, 4)
+	}
 	// packets of 188+k bytes yield the same packets: parsePacket on the reference encodings of whole packets with k = 0, 4
 	// and 16 extra bytes after the sync byte (payload only, adaptation field + payload, adaptation field only, one-byte
 	// adaptation field) delivers the same fields and the same payload bytes (A4 pair spec/ts-packet of C11)
